@@ -175,7 +175,8 @@ pub fn math_min(
         if n.is_nan() {
             return Ok(Guarded::unguarded(JsValue::Number(f64::NAN)));
         }
-        if n < min {
+        // -0 is considered smaller than +0
+        if n < min || (n == 0.0 && min == 0.0 && n.is_sign_negative()) {
             min = n;
         }
     }
@@ -196,7 +197,8 @@ pub fn math_max(
         if n.is_nan() {
             return Ok(Guarded::unguarded(JsValue::Number(f64::NAN)));
         }
-        if n > max {
+        // +0 is considered larger than -0
+        if n > max || (n == 0.0 && max == 0.0 && !n.is_sign_negative()) {
             max = n;
         }
     }
